@@ -155,3 +155,21 @@ def run(ctx):
     # ---- R20.7 bitmap events received before the end are all forwarded, in order (shared with C10) ------------------
     import c10
     ctx.include(c10.run, ('R10.1', 'R10.3'), 'R20.7')
+
+    # ---- R20.8 an empty frame never turns into "read whatever arrives next" (it would block holding the lock or swallow later PDUs) ----
+    import c13
+    ctx.include(c13.run, ('R13.4',), 'R20.8')
+
+    # ---- R20.9 silence is not the end of the session: the readiness wait has no timeout whose expiry would leave the loop ---------
+    wf = ctx.body('mstsc_rs::wait_for_fd')
+    sel = [c for c in wf.calls if c.callee.rsplit('::', 1)[-1] == 'select']
+    ctx.floor('R20.9', 'select() calls in wait_for_fd', len(sel), 1)
+    for i, c in enumerate(sel):
+        to = c.args[-1]
+        srcs = [o.call.callee for o in origins(wf, to) if o.kind == 'call']
+        consts = [o for o in origins(wf, to) if o.kind == 'const']
+        null = bool(srcs) and all(re.search(r'ptr::null(_mut)?$', x) for x in srcs) and not [o for o in origins(wf, to) if o.kind not in ('call', 'const')]
+        ctx.check(null, 'R20.9', 'select:no_timeout#%d' % i,
+                  'select() waits without a timeout (null timeval): a silent server keeps the receive thread waiting, it does not end it', c.where(),
+                  'wait_for_fd passes a timeout to select() (from %s): when it expires select returns 0, wait_for_fd returns false and the receive loop of '
+                  'launch_rdp_thread ends although the session is alive' % (srcs or 'a local timeval'))
